@@ -32,8 +32,9 @@ import (
 //        r = {"n":…,"e":"…"} for a Write, {"e":[…]} for Sync/Stop, {} for a tick
 //   {"k":"bufio","size":S,"ops":[{"w":"<hex>"}|{"o":"f"}…],"wo":[…]}   the same sink under a bare bufio.Writer
 //        → {"steps":[{"r":…,"ev":[…],"buf":Buffered()}…]}
-//   {"k":"conc","size":S,"slow":µs,"progs":[["w<len>"|"s"|"x"…]…],"ticks":T,"stoppers":K}
+//   {"k":"conc","size":S,"slow":µs,"progs":[["w<len>"|"s"|"x"…]…],"ticks":T,"stoppers":K,"rep":R}
 //        phase 1: one goroutine per program plus a ticker goroutine; phase 2: K goroutines call Stop at once.
+//        The whole program is run R times (≥1) on fresh syncers — schedules differ — and the first failing run is reported.
 //        → {"bytes":…,"records":…}       (what reached the sink after the final Stop+Sync)
 //   {"k":"crash","size":S,"seed":…,"interval_us":…,"kill_us":…}   child process writing records through a
 //        BufferedWriteSyncer over a file, Sync acknowledgements on its stdout, SIGKILL after kill_us   (oracle only)
@@ -53,6 +54,7 @@ type c12Op struct {
 	Progs    [][]string `json:"progs"`
 	Ticks    int        `json:"ticks"`
 	Stoppers int        `json:"stoppers"`
+	Rep      int        `json:"rep"`
 	Seed     uint64     `json:"seed"`
 	Interval int        `json:"interval_us"`
 	Kill     int        `json:"kill_us"`
@@ -83,7 +85,8 @@ func (op c12Op) wire() any {
 			Progs    [][]string `json:"progs"`
 			Ticks    int        `json:"ticks"`
 			Stoppers int        `json:"stoppers"`
-		}{op.K, op.Size, op.Slow, op.Progs, op.Ticks, op.Stoppers}
+			Rep      int        `json:"rep"`
+		}{op.K, op.Size, op.Slow, op.Progs, op.Ticks, op.Stoppers, op.Rep}
 	case "crash":
 		return struct {
 			K        string `json:"k"`
@@ -276,7 +279,7 @@ func c12Gen(r *Rand, tier string, emit func(op any)) {
 		nConc = 1500
 	}
 	for i := 0; i < nConc; i++ {
-		op := c12Op{K: "conc", Size: Pick(r, []int{8, 16, 64, 256, 4096}), Ticks: r.Intn(20), Stoppers: Pick(r, []int{0, 1, 2, 2, 2, 3, 5})}
+		op := c12Op{K: "conc", Size: Pick(r, []int{8, 16, 64, 256, 4096}), Ticks: r.Intn(20), Stoppers: Pick(r, []int{0, 1, 2, 2, 2, 3, 5}), Rep: 1}
 		if r.Chance(1, 2) {
 			op.Slow = Pick(r, []int{1, 20, 100})
 		}
@@ -302,6 +305,7 @@ func c12Gen(r *Rand, tier string, emit func(op any)) {
 			op.Ticks = 0
 			op.Stoppers = 2 + r.Intn(3)
 			op.Slow = Pick(r, []int{20, 100, 300})
+			op.Rep = 20
 		}
 		emitOp(op)
 	}
@@ -864,9 +868,29 @@ func c12ProgLen(s string) (int, bool) {
 }
 
 func c12Conc(op c12Op) Result {
-	if len(op.Progs) > 200 || op.Stoppers > 64 || op.Ticks > 10000 {
+	if len(op.Progs) > 200 || op.Stoppers > 64 || op.Ticks > 10000 || op.Rep > 10000 {
 		return Result{Impl: map[string]any{"out_of_scope": true}, Oracle: ok(), NoModel: true, Shape: "conc/out-of-scope"}
 	}
+	// a tiny program is over in microseconds and sees one schedule per run: run it at least 20 times, so that a
+	// shrunk replay of a schedule-dependent failure (F11: one write, several Stops) reproduces dependably
+	steps := 0
+	for _, p := range op.Progs {
+		steps += len(p)
+	}
+	if steps <= 4 && op.Rep < 20 {
+		op.Rep = 20
+	}
+	var r Result
+	for i := 0; i < op.Rep || i == 0; i++ {
+		r = c12ConcOnce(op)
+		if !r.Oracle.OK {
+			break
+		}
+	}
+	return r
+}
+
+func c12ConcOnce(op c12Op) Result {
 	sink := newC12Sink(nil, nil)
 	sink.slow = time.Duration(op.Slow) * time.Microsecond
 	clk := &c12Clock{ch: make(chan time.Time)}
